@@ -26,7 +26,7 @@ type c19Scenario struct {
 	User       Q        `json:"user"`
 	Pass       Q        `json:"pass"`
 	Advertised []string `json:"advertised"`
-	Reply      string   `json:"reply"`   // ack, nak, ack_then_minus, ack_split
+	Reply      string   `json:"reply"`   // ack, nak, ack_then_minus, ack_split, ack_reversed, two_ls
 	Outcome    string   `json:"outcome"` // 903, 904, 908
 	Stray      bool     `json:"stray_authenticate"`
 }
@@ -181,8 +181,38 @@ func runC19(sc *c19Scenario) *Violation {
 			return v
 		}
 	}
-	req, wantLines := m.onLS(sc.Advertised)
-	got, v = step(":irc.server CAP * LS :" + strings.Join(sc.Advertised, " "))
+	if sc.Reply == "two_ls" && len(sc.Advertised) >= 2 {
+		// the server advertises in two rounds: what was advertised first is still advertised
+		first := sc.Advertised[:len(sc.Advertised)-1]
+		req1, want1 := m.onLS(first)
+		got1, v := step(":irc.server CAP * LS :" + strings.Join(first, " "))
+		if v != nil {
+			return v
+		}
+		if len(req1) == 0 {
+			if v := expectLines("after the first LS round (empty intersection)", got1, want1); v != nil {
+				return v
+			}
+		} else {
+			var asked []string
+			for _, l := range got1 {
+				if !strings.HasPrefix(l, "CAP REQ :") {
+					return violationf("C19", "after the first LS round: client sent %q, want only CAP REQ lines", got1)
+				}
+				asked = append(asked, strings.Fields(l[len("CAP REQ :"):])...)
+			}
+			sort.Strings(asked)
+			if strings.Join(asked, " ") != strings.Join(req1, " ") {
+				return violationf("C19", "after the first LS round: client requested %v, want %v", asked, req1)
+			}
+		}
+	}
+	last := sc.Advertised
+	if sc.Reply == "two_ls" && len(sc.Advertised) >= 2 {
+		last = sc.Advertised[len(sc.Advertised)-1:]
+	}
+	req, wantLines := m.onLS(last)
+	got, v = step(":irc.server CAP * LS :" + strings.Join(last, " "))
 	if v != nil {
 		return v
 	}
@@ -293,7 +323,15 @@ func runC19(sc *c19Scenario) *Violation {
 			}
 		}
 	default:
-		if v := ack("after ACK", req); v != nil {
+		ackCaps := req
+		if sc.Reply == "ack_reversed" {
+			// a server may acknowledge in any order
+			ackCaps = append([]string{}, req...)
+			for i, j := 0, len(ackCaps)-1; i < j; i, j = i+1, j-1 {
+				ackCaps[i], ackCaps[j] = ackCaps[j], ackCaps[i]
+			}
+		}
+		if v := ack("after ACK", ackCaps); v != nil {
 			return v
 		}
 		if v := saslFlow(); v != nil {
@@ -344,15 +382,16 @@ func subsets(u []string) [][]string {
 }
 
 func TestC19_Enum(t *testing.T) {
-	col := evid.New("C19", "every combination of wanted subset of {a,b,c} x SASL none/PLAIN/EXTERNAL x advertised subset of {a,b,c,sasl} x server reply (ACK, NAK, ACK then ACK of '-cap', ACK split in two) x SASL outcome (903, 904, 908+904) x stray AUTHENTICATE before the ACK, each run as a live session against the negotiation model; non-trivial = proper intersection, SASL started, or a '-cap' acknowledgement; distinct by construction")
+	col := evid.New("C19", "every combination of wanted subset of {a,b,z} x SASL none/PLAIN/EXTERNAL x advertised subset of {a,b,z,sasl} x server reply (ACK, NAK, ACK then ACK of '-cap', ACK split in two, ACK in reverse order, LS in two rounds) x SASL outcome (903, 904, 908+904) x stray AUTHENTICATE before the ACK, each run as a live session against the negotiation model; non-trivial = proper intersection, SASL started, or a '-cap' acknowledgement; distinct by construction")
 	defer finish(t, col)
 	shard, shards := envInt("VERIF_SHARD", 0), envInt("VERIF_SHARDS", 1)
 	var total, nt int64
 	i := 0
-	for _, wanted := range subsets([]string{"a", "b", "c"}) {
+	// "z" sorts after "sasl": the order of names within a line matters to some implementations
+	for _, wanted := range subsets([]string{"a", "b", "z"}) {
 		for _, sm := range []string{"", "PLAIN", "EXTERNAL"} {
-			for _, adv := range subsets([]string{"a", "b", "c", "sasl"}) {
-				for _, reply := range []string{"ack", "nak", "ack_then_minus", "ack_split"} {
+			for _, adv := range subsets([]string{"a", "b", "z", "sasl"}) {
+				for _, reply := range []string{"ack", "nak", "ack_then_minus", "ack_split", "ack_reversed", "two_ls"} {
 					for _, outcome := range []string{"903", "904", "908"} {
 						for _, stray := range []bool{false, true} {
 							i++
@@ -397,7 +436,7 @@ func genC19(t *rapid.T) *c19Scenario {
 	}
 	universe = uniqStrings(universe)
 	sc := &c19Scenario{Sasl: rapid.SampledFrom([]string{"", "PLAIN", "EXTERNAL"}).Draw(t, "sasl"),
-		Reply: rapid.SampledFrom([]string{"ack_split", "ack_split", "nak", "ack"}).Draw(t, "reply"), Outcome: rapid.SampledFrom([]string{"903", "904", "908"}).Draw(t, "outcome"),
+		Reply: rapid.SampledFrom([]string{"ack_split", "ack_split", "nak", "ack", "two_ls", "ack_reversed"}).Draw(t, "reply"), Outcome: rapid.SampledFrom([]string{"903", "904", "908"}).Draw(t, "outcome"),
 		Stray: rapid.Bool().Draw(t, "stray")}
 	for _, c := range universe {
 		switch rapid.IntRange(0, 3).Draw(t, "membership") {
@@ -418,7 +457,7 @@ func genC19(t *rapid.T) *c19Scenario {
 		return Q(string(b))
 	}
 	sc.Authzid, sc.User, sc.Pass = cred("authzid"), cred("user"), cred("pass")
-	if sc.Reply == "ack" {
+	if sc.Reply == "ack" || sc.Reply == "ack_reversed" {
 		// a single ACK line would exceed the line length for large sets; keep the set small
 		if len(sc.Advertised) > 12 {
 			sc.Advertised = sc.Advertised[:12]
